@@ -164,6 +164,37 @@ def body_history(case):
     return labels
 
 
+def _huge_cases(tier):
+    import os
+
+    seed = int(os.environ.get("VERIF_SEED", "1") or "1")
+    for n in ([2**20 + 4097] if tier == "quick" else [2**20 + 4097, 2**21 + 1, 65537, 2**17 + 3001]):
+        yield {"n": n, "version": str(1 + seed % 3), "seed": seed}
+
+
+def body_huge(case):
+    """One call with more events than a block length: every event interpolated (own vectorised reference), whole ==
+    parts."""
+    n, version = case["n"], case["version"]
+    i = np.arange(n, dtype=np.float64)
+    g = 0.6180339887498949
+    log_e = 6.0 + 6.0 * ((i * g + 0.37 * case["seed"]) % 1.0)
+    beta = BETA_MIN + (BETA_MAX - BETA_MIN) * ((i * g * 3 + 0.11) % 1.0)
+    beta[::1013] = 0.0  # some clamped angles
+    beta[5::2027] = 1.2
+    taus = _taus(version)
+    with cut(f"tau_exit_prob({n} events)"):
+        p = np.asarray(taus.tau_exit_prob(beta, log_e), dtype=np.float64)
+    require(p.shape == (n,), f"result has shape {p.shape} for {n} events")
+    ref, lo, hi, high = otab.pexit(version, log_e, beta)
+    bad = np.where(~(np.abs(p - ref) <= _tol(high) * ref))[0]
+    require(bad.size == 0, f"{bad.size} of {n} events of one call differ from the table reference (first at event {int(bad[0]) if bad.size else -1}: {p[bad[:1]].tolist()} vs {ref[bad[:1]].tolist()})")
+    k = 2**20 if n > 2**20 else n // 2
+    parts = np.concatenate([np.asarray(_taus(version).tau_exit_prob(beta[:k].copy(), log_e[:k].copy())), np.asarray(_taus(version).tau_exit_prob(beta[k:].copy(), log_e[k:].copy()))])
+    require(parts.tobytes() == p.tobytes(), f"evaluating [0:{k}] and [{k}:{n}] separately differs from one call on {n} events")
+    return {f"n={n}"}
+
+
 op_st = st.one_of(
     st.fixed_dictionaries({"op": st.just("pexit"), "version": version_st, "events": st.lists(event2, min_size=1, max_size=8)}),
     st.fixed_dictionaries(
@@ -205,5 +236,14 @@ SUBCHECKS = [
         lambda labels: "len>=3" in labels and "clamped_angle" in labels,
         {"quick": 250, "thorough": 10000},
         doc="call histories over shared Taus objects of several table versions: every result == fresh object's, bit for bit; table data stable",
+    ),
+    SubCheck(
+        "huge_batch",
+        None,
+        body_huge,
+        lambda labels: True,
+        {"quick": 1},
+        doc="one call with 2^20+4097 events (more sizes in the thorough tier): every event vs the table reference, whole == parts",
+        exhaustive=_huge_cases,
     ),
 ]
